@@ -1,16 +1,19 @@
 #!/bin/bash
 # Re-runs every seeded breaking change against its property's quick check (expect exit 1)
 # and every good refactoring against all four checks (expect exit 0). Prints one line each.
+# usage: regress.sh [lanes]   (default 2 runs side by side; each check already uses all cores
+# for its worker phases, the second lane fills the single-threaded confirm/minimise phases)
 cd /verif
+lanes=${1:-2}
+jobs=$(mktemp /tmp/regress-jobs-XXXX)
 for d in seeded/S-*; do
   id=$(basename $d); p=$(echo $id | cut -d- -f2)
-  out=$(tools/mutrun.sh $id /verif/$d/patch.diff $p 2>&1 | grep -E "^mutant=" )
-  echo "$out"
+  echo "$id /verif/$d/patch.diff $p" >> $jobs
 done
 for f in seeded/good/*.diff; do
   n=$(basename $f .diff)
-  for p in C11 C12 C13 C14; do
-    out=$(tools/mutrun.sh G-$n /verif/$f $p 2>&1 | grep -E "^mutant=")
-    echo "$out"
-  done
+  for p in C11 C12 C13 C14; do echo "G-$n /verif/$f $p" >> $jobs; done
 done
+if [ -n "${REGRESS_SKIP:-}" ]; then grep -vE "$REGRESS_SKIP" $jobs > $jobs.f; mv $jobs.f $jobs; fi
+xargs -P $lanes -L 1 sh -c 'tools/mutrun.sh $0 $1 $2 2>&1 | grep -E "^mutant="' < $jobs
+rm -f $jobs
